@@ -3,6 +3,7 @@ mod harness;
 mod huffman_table;
 mod props;
 mod rawpeer;
+mod rawscript;
 mod refcodec;
 mod rng;
 mod simnet;
